@@ -122,6 +122,36 @@ fn main() {
             })
         }
         "dev" => run_with_big_stack(move || dev::main(&args[2..])),
+        "shrink" => {
+            // dlverif shrink <replay.json> [seconds]: keep shrinking the recorded case, rewrite the file
+            let file = args.get(2).cloned().unwrap_or_else(|| usage());
+            let secs: u64 = args.get(3).and_then(|s| s.parse().ok()).unwrap_or(60);
+            let text = std::fs::read_to_string(&file).expect("read replay file");
+            let mut rec: serde_json::Value = serde_json::from_str(&text).expect("parse replay file");
+            let id = rec["property"].as_str().unwrap_or_else(|| usage()).to_string();
+            run_with_big_stack(move || {
+                let mut m = mon::make(&id).unwrap_or_else(|| usage());
+                let case = rec.get("shrunk").cloned().unwrap_or(rec["case"].clone());
+                let mut cov = Cov::new();
+                let coarse = match m.run(&case, &mut cov) {
+                    Verdict::Violated { signature, .. } => signature,
+                    _ => {
+                        println!("case does not fail");
+                        return 1;
+                    }
+                };
+                let (shrunk, detail, steps) = shrink_case(m.as_mut(), &case, &coarse, std::time::Duration::from_secs(secs));
+                let fine = m.classify(&shrunk, &coarse);
+                println!("shrink steps: {}\nsignature: {}\n{}", steps, fine, if detail.is_empty() { rec["detail"].as_str().unwrap_or("").to_string() } else { detail.clone() });
+                rec["shrunk"] = shrunk;
+                rec["signature"] = serde_json::json!(fine);
+                if !detail.is_empty() {
+                    rec["detail"] = serde_json::json!(detail);
+                }
+                let _ = std::fs::write(&file, serde_json::to_string_pretty(&rec).unwrap());
+                0
+            })
+        }
         "selftest" => run_with_big_stack(|| mon::selftest()),
         _ => usage(),
     };
